@@ -239,9 +239,12 @@ CLAIMED["C11"] = dict(
     "to what do_element made of an element, in the state do_element left, returns the element up to a normal form (copies of "
     "inline elements, empty = missing text / tail), for any nesting of formatting and single elements, on the fresh maker and "
     "on every state satisfying the table / heap invariants - by a relation between the children and the alternating placeholder "
-    "text that do_element provably establishes and from which the restoring loop provably rebuilds the children. "
-    "PARTIAL: the round trip of a whole document through do_tree / undo_tree (several text elements, text tags nested in text "
-    "tags) is decided on every run by the oracle on the real maker and by unit U7, which compares the trees after do_tree, the placeholder table with its keys, and the trees after undo_tree "
+    "text that do_element provably establishes and from which the restoring loop provably rebuilds the children. For a whole "
+    "document without a text tag inside a text tag, do_tree is proved to be a left-to-right traversal replacing each text "
+    "element in place, undo_element on the root (what undo_tree calls) returns the document up to the normal form "
+    "(C11_roundtrip_tree), and do_tree keeps the invariants (C11_do_tree_keeps_invariants), so the round trip holds for a "
+    "maker with any history of such documents. PARTIAL: documents with a text tag nested in a text tag (substituted while "
+    "detached, through the heap) are decided on every run by the oracle on the real maker and by unit U7, which compares the trees after do_tree, the placeholder table with its keys, and the trees after undo_tree "
     "between model and code (one or two documents per maker, random tag subsets).",
     note="Trusted: Lean kernel and standard axioms; model validated by U7; lxml serialisation (tounicode) is modelled as the "
     "id-erased subtree value; documents without private-use characters, < 6400 placeholders.",
